@@ -583,6 +583,8 @@ class Emitter:
         self.locals = set(locals_)
         self.on_break = self.on_continue = self.on_end = None   # Lean terms for loop bodies
         self.on_while = None                                    # callback (stmt, rest) -> Lean term
+        self.consts = {}          # rust path -> lean term, for constant patterns (`Some(MessageIntegrity::TYPE) =>`)
+        self.preconditions = []   # contract panics dropped from the translation (recorded, stated in the theorem)
 
     # -------------------------------------------------------------- expressions
     def subst(self, tmpl, b, ctx="v"):
@@ -713,6 +715,13 @@ class Emitter:
                 self.locals = saved
                 bb = self.blk(list(els) + rest, pure)
                 return f"{pre}(match {scrut} with | {p} => {a} | _ => {bb})"
+            if e[0] == "match" and self._panic_only(e[2]):
+                # `match x { A => panic!(..), B => panic!(..), _ => () }`: a documented contract check; the
+                # translation assumes the contract and records it
+                self.preconditions.append(f"{render(e[1])} not in {[render(a[0]) for a in e[2][:-1]]}")
+                return self.blk(rest, pure)
+            if e[0] == "match" and self._needs_chain(e[2]):
+                return self._chain(e, rest, pure)
             if e[0] == "match":
                 scrut, pre = self.scrutinee(e[1])
                 arms = []
@@ -726,6 +735,8 @@ class Emitter:
                 return f"{pre}(match {scrut} with " + " ".join(arms) + ")"
             if e[0] == "block":
                 return self.blk(list(e[1]) + rest, pure)
+            if e == ("tuple", []):
+                return self.blk(rest, pure)
             if not s[2] and not rest:
                 return self.result(e, pure)
             # expression statement with an effect on the state
@@ -778,6 +789,87 @@ class Emitter:
                 return f"let {lhs[1][1]} := ({lhs[1][1]}.set {self.tx(lhs[2])} {self.tx(rhs)}); {self.blk(rest, pure)}"
             raise XlateError(f"assignment target {render(lhs)}")
         raise XlateError(f"statement kind {k}")
+
+    def _const(self, p):
+        if p[0] == "ppath" and p[1] in self.consts:
+            return self.consts[p[1]]
+        return None
+
+    def _panic_only(self, arms):
+        if len(arms) < 2 or arms[-1][0] != ("pwild",):
+            return False
+        last = arms[-1][2]
+        if not (len(last) == 1 and last[0][0] == "expr" and last[0][1] == ("tuple", [])):
+            return False
+        for p, g, body in arms[:-1]:
+            if g is not None or self._const(p) is None:
+                return False
+            if not (len(body) == 1 and body[0][0] == "expr" and body[0][1][0] == "macro" and body[0][1][1] == "panic"):
+                return False
+        return True
+
+    def _needs_chain(self, arms):
+        for p, g, body in arms:
+            if g is not None or self._const(p) is not None:
+                return True
+            if p[0] == "pctor" and p[1] == "Some" and len(p[2]) == 1 and self._const(p[2][0]) is not None:
+                return True
+        return False
+
+    def _chain(self, e, rest, pure):
+        """match with constant patterns and guards -> if-chain (constants are definitions, not literals).
+        Supported arm patterns: CONST, Some(CONST), Some(x) [if guard], None, _"""
+        scrut, pre = self.scrutinee(e[1])
+        arms = e[2]
+        is_opt = any(p[0] == "pctor" and p[1] == "Some" for p, _, _ in arms) or any(p == ("ppath", "None") for p, _, _ in arms)
+
+        def body_of(b):
+            return self.blk(list(b) + rest, pure)
+
+        def chain(i, var, in_some):
+            if i == len(arms):
+                raise XlateError("match chain without a catch-all arm")
+            p, g, b = arms[i]
+            if p == ("pwild",):
+                if g is not None:
+                    raise XlateError("guarded wildcard")
+                return body_of(b)
+            if in_some:
+                if p[0] == "pctor" and p[1] == "Some" and len(p[2]) == 1:
+                    q = p[2][0]
+                    c = self._const(q)
+                    if c is not None and g is None:
+                        return f"(if {var} = {c} then {body_of(b)} else {chain(i + 1, var, True)})"
+                    if q[0] == "pbind":
+                        saved = set(self.locals)
+                        self.locals.add(q[1])
+                        name = ident(q[1])
+                        if g is None:
+                            r = f"(let {name} := {var}; {body_of(b)})"
+                        else:
+                            r = f"(let {name} := {var}; if {self.tx(g, 'c')} then {body_of(b)} else {chain(i + 1, var, True)})"
+                        self.locals = saved
+                        return r
+                    raise XlateError("Some(..) pattern shape")
+                if p == ("ppath", "None"):
+                    return chain(i + 1, var, True)
+                raise XlateError("pattern in an Option chain")
+            c = self._const(p)
+            if c is not None and g is None:
+                return f"(if {var} = {c} then {body_of(b)} else {chain(i + 1, var, False)})"
+            raise XlateError("pattern in a constant chain")
+
+        if not is_opt:
+            return f"{pre}(let __m := {scrut}; {chain(0, '__m', False)})"
+        # the None case: first arm that is `None` or `_`
+        none_body = None
+        for p, g, b in arms:
+            if (p == ("ppath", "None") or p == ("pwild",)) and g is None:
+                none_body = body_of(b)
+                break
+        if none_body is None:
+            raise XlateError("Option match without a None/_ arm")
+        return f"{pre}(match {scrut} with | some __t => {chain(0, '__t', True)} | none => {none_body})"
 
     def scrutinee(self, e):
         for pat, val, st in self.lets:
